@@ -561,6 +561,11 @@ def _ops():
         'feeder_add':       ('feeder', lambda s: None, lambda s, p: (s.feed(7), s.engine.receiver.size())),
         'dist_main_updated':   ('dist_main', lambda s: None, lambda s, p: s.run_main_pass(p['updated'])),
         'dist_main_completed': ('dist_main', lambda s: None, lambda s, p: s.run_main_pass(p['completed'])),
+        # a peer's message completing two runs while the producer's bounded queue is already full (whatever is done about
+        # it is done on the distributed thread, under the locks that thread holds)
+        'dist_main_completed_full_producer': ('dist_main', lambda s: (bound_queue(s.engine.producer, '_queue', 1),
+                                                                      s.run_main_pass(s._p['completed'])),
+                                              lambda s, p: _quiet(lambda: s.run_main_pass(p['completed2']))),
         'dist_main_closed_with_backlog': ('dist_main', lambda s: None, lambda s, p: s.run_main_closed_with_backlog(p['updated'])),
         'dist_main_existing':  ('dist_main', lambda s: (s.feed(1), s.engine.update(), setattr(s, 'own', s.own_payload())),
                                 lambda s, p: s.run_main_pass(s.own)),
@@ -583,6 +588,14 @@ def _ops():
     }
 
 
+def _quiet(fn):
+    from bobocep import BoboError
+    try:
+        fn()
+    except BoboError:
+        pass          # the documented answer to a full queue
+
+
 OPS = _ops()
 
 
@@ -600,6 +613,7 @@ def observe(rec, payloads, variant, opnames):
         role, prep, op = OPS[name]
         s = fresh(rec, variant)
         try:
+            s._p = payloads
             with rec.as_role('engine' if role != 'engine' else role, name + ':prep'):
                 prep(s)
             with rec.as_role(role, name):
@@ -671,6 +685,7 @@ def force(rec_factory, payloads, variant, steps, hold_s=1.5):
     done = [threading.Event() for _ in range(n)]
     errs = [None] * n
     idents = [None] * n
+    s._p = payloads
     for st in steps:
         role, prep, op = OPS[st['op']]
         with rec.as_role('engine', st['op'] + ':prep'):
